@@ -36,7 +36,6 @@ EXPECTED_NOT_UNDERSTOOD = {
 
 # behaviour-preserving refactorings (confirmed: identical observable output, baseline passes) that the checker cannot follow.  Required: exit 0 or 2, never 1.
 REFACTOR_NOT_UNDERSTOOD = {
-    "sa/selftest/never_alarm/C12/refactor_C.diff": "the host step lookup vectorised with np.full + one boolean-mask store per step: in-place numpy mask stores are not interpreted",
     "sa/selftest/never_alarm/C16/refactor_D.diff": "the three accumulator dicts replaced by one dict of dataclass objects filled from a generator function: generators are not interpreted and the result builder has another signature",
 }
 
